@@ -14,6 +14,28 @@
 (***************************************************************************)
 EXTENDS Syntax
 
+Cod == INSTANCE Codecs
+
+NameFlateDecode == <<70, 108, 97, 116, 101, 68, 101, 99, 111, 100, 101>>
+NamePredictor == <<80, 114, 101, 100, 105, 99, 116, 111, 114>>
+NameColumns == <<67, 111, 108, 117, 109, 110, 115>>
+
+\* Decoded content of a structural stream (XRef / ObjStm): no filter, or FlateDecode (stored deflate
+\* blocks only - real Huffman-coded deflate is outside the specification) optionally with a PNG
+\* predictor (Predictor 10-15, Columns; Colors 1, BitsPerComponent 8) in a DecodeParms dictionary.
+StructStreamData(sv) ==
+    LET d == sv.v IN
+    IF ~Has(d, NameFilter) THEN [ok |-> TRUE, data |-> sv.w]
+    ELSE IF d[NameFilter] # OName(NameFlateDecode) THEN [ok |-> FALSE, data |-> <<>>]
+    ELSE LET z == Cod!ZInflateStored(sv.w) IN
+         IF ~z.ok THEN [ok |-> FALSE, data |-> <<>>]
+         ELSE IF ~Has(d, NameDecodeParms) THEN [ok |-> TRUE, data |-> z.data]
+         ELSE LET p == d[NameDecodeParms] IN
+              IF ~(p.k = "dict" /\ Has(p.v, NamePredictor) /\ IntSmall(p.v[NamePredictor])) THEN [ok |-> FALSE, data |-> <<>>]
+              ELSE IF IntVal(p.v[NamePredictor]) < 10 THEN [ok |-> IntVal(p.v[NamePredictor]) = 1, data |-> z.data]
+              ELSE IF ~(Has(p.v, NameColumns) /\ IntSmall(p.v[NameColumns]) /\ IntVal(p.v[NameColumns]) >= 1) THEN [ok |-> FALSE, data |-> <<>>]
+              ELSE LET u == Cod!PngDecode(z.data, 1, IntVal(p.v[NameColumns])) IN [ok |-> u.ok, data |-> u.data]
+
 IsCmt(it) == it.it = "cmt"
 IsKw(it, kw) == it.it = "kw" /\ it.v = kw
 IsIntVal(it) == it.it = "val" /\ it.val.k = "int"
@@ -167,11 +189,14 @@ CheckRevision(body, rev, allobjs) ==
                  size == IF Has(d, NameSize) /\ IntSmall(d[NameSize]) THEN IntVal(d[NameSize]) ELSE 0
                  index == IF Has(d, NameIndex) THEN SmallNats(d[NameIndex]) ELSE <<0, size>>
              IN IF Len(w) # 3 \/ Len(index) % 2 # 0 \/ index = <<>> THEN [ok |-> FALSE, err |-> "XRef stream W/Index malformed"]
-                ELSE IF Has(d, NameFilter) THEN [ok |-> FALSE, err |-> "filtered XRef stream (not handled by this reader configuration)"]
+                \* totality on adversarial input: widths above 8 bytes or absurd counts are rejected, not computed with
+                ELSE IF (\E i \in 1..3 : w[i] > 8) \/ (\E i \in 1..Len(index) : index[i] > 1000000) THEN [ok |-> FALSE, err |-> "XRef stream W/Index out of range"]
+                ELSE IF ~StructStreamData(xo.val).ok THEN [ok |-> FALSE, err |-> "XRef stream filter cannot be decoded (only stored-block FlateDecode with PNG predictors is specified)"]
                 ELSE LET rowlen == w[1] + w[2] + w[3]
+                         xdata == StructStreamData(xo.val).data
                          count == FoldLeft(LAMBDA acc, i : acc + index[2 * i], 0, [i \in 1..(Len(index) \div 2) |-> i])
-                     IN IF Len(xo.val.w) # count * rowlen THEN [ok |-> FALSE, err |-> "XRef stream Length is not (sum of Index counts) x (W1+W2+W3)"]
-                        ELSE LET ents == XrefStreamEntries(xo.val.w, w, index)
+                     IN IF Len(xdata) # count * rowlen THEN [ok |-> FALSE, err |-> "XRef stream Length is not (sum of Index counts) x (W1+W2+W3)"]
+                        ELSE LET ents == XrefStreamEntries(xdata, w, index)
                                  t1 == SelectSeq(ents, LAMBDA e : e.type = 1)
                              IN IF ~(\A i \in 1..Len(t1) : LET k == ObjAt(objs, t1[i].f2) IN
                                         k # 0 /\ objs[k].num = t1[i].num /\ objs[k].gen = t1[i].f3)
@@ -188,13 +213,14 @@ CheckRevision(body, rev, allobjs) ==
 (* Object streams (7.5.7): "num off" pairs, then the objects at First + off *)
 ParseObjStm(sv, vb) ==
     LET d == sv.v
+        dec == StructStreamData(sv)
         okd == /\ Has(d, NameN) /\ IntSmall(d[NameN]) /\ Has(d, NameFirst) /\ IntSmall(d[NameFirst])
-               /\ ~Has(d, NameFilter) /\ TypeNameOf(sv) = NameObjStm
+               /\ dec.ok /\ TypeNameOf(sv) = NameObjStm
     IN IF ~okd THEN [ok |-> FALSE, objs |-> <<>>]
        ELSE
        LET n == IntVal(d[NameN])
            first == IntVal(d[NameFirst])
-           rd == ReadV(sv.w, FALSE, vb)
+           rd == ReadV(dec.data, FALSE, vb)
            its == SelectSeq(rd.items, LAMBDA it : it.it # "cmt")
        IN IF ~rd.ok \/ Len(its) < 2 * n \/ ~(\A i \in 1..(2 * n) : IsIntVal(its[i]) /\ IntSmall(its[i].val))
           THEN [ok |-> FALSE, objs |-> <<>>]
@@ -230,8 +256,8 @@ RdFileV(bytes, vb) ==
            bad == SelectInSeq(chk, LAMBDA c : ~c.ok)
        IN IF bad # 0 THEN [ok |-> FALSE, err |-> chk[bad].err, rev |-> bad]
           ELSE
-          LET fixed == [i \in 1..Len(allobjs) |-> FixStream(body, allobjs[i], allobjs)]
-              badfix == SelectInSeq(fixed, LAMBDA f : ~f.ok)
+          \* stage 1: indirect stream lengths held by plainly stored integer objects
+          LET fixed1 == [i \in 1..Len(allobjs) |-> FixStream(body, allobjs[i], allobjs)]
               \* Prev chain: every revision after the first names the previous startxref
               prevok == \A i \in 2..Len(revs) :
                            /\ Has(chk[i].trailer, NamePrev)
@@ -248,11 +274,28 @@ RdFileV(bytes, vb) ==
                   IN IF cands = <<>> THEN 0 ELSE cands[Len(cands)]
               compOk(r, e) ==
                   LET ci == containerOf(r, e.f2) IN
-                  /\ ci # 0 /\ fixed[ci].val.k = "stream"
-                  /\ LET po == ParseObjStm(fixed[ci].val, vb) IN
+                  /\ ci # 0 /\ fixed1[ci].ok /\ fixed1[ci].val.k = "stream"
+                  /\ LET po == ParseObjStm(fixed1[ci].val, vb) IN
                         po.ok /\ e.f3 + 1 <= Len(po.objs) /\ po.objs[e.f3 + 1].num = e.num
-              compVal(r, e) == ParseObjStm(fixed[containerOf(r, e.f2)].val, vb).objs[e.f3 + 1].val
+              compVal(r, e) == ParseObjStm(fixed1[containerOf(r, e.f2)].val, vb).objs[e.f3 + 1].val
               badcomp == \E r \in 1..Len(revs) : \E j \in 1..Len(chk[r].comp) : ~compOk(r, chk[r].comp[j])
+              \* stage 2: a stream Length may also be held by an integer stored in an object stream (newest one)
+              compInt(num) ==
+                  LET hits == {<<r, j>> \in UNION {{<<r, j>> : j \in 1..Len(chk[r].comp)} : r \in 1..Len(revs)} : chk[r].comp[j].num = num}
+                  IN IF badcomp \/ hits = {} THEN [ok |-> FALSE, L |-> 0]
+                     ELSE LET hit == CHOOSE x \in hits : \A y \in hits : y[1] < x[1] \/ (y[1] = x[1] /\ y[2] <= x[2])
+                              v == compVal(hit[1], chk[hit[1]].comp[hit[2]])
+                          IN IF IntSmall(v) THEN [ok |-> TRUE, L |-> IntVal(v)] ELSE [ok |-> FALSE, L |-> 0]
+              fixed == [i \in 1..Len(allobjs) |->
+                          IF fixed1[i].ok \/ allobjs[i].lr = <<>> \/ allobjs[i].lr[2] # 0 THEN fixed1[i]
+                          ELSE LET o == allobjs[i] ci == compInt(o.lr[1]) IN
+                               IF ~ci.ok THEN fixed1[i]
+                               ELSE LET span == o.re - o.rs + 1
+                                        rest == SubSeq(body, o.rs + ci.L, o.re)
+                                    IN IF ci.L <= span /\ rest \in {<<>>, <<10>>, <<13, 10>>, <<13>>}
+                                       THEN [ok |-> TRUE, val |-> [o.val EXCEPT !.w = SubSeq(body, o.rs, o.rs + ci.L - 1)]]
+                                       ELSE fixed1[i]]
+              badfix == SelectInSeq(fixed, LAMBDA f : ~f.ok)
               \* newest definition wins: revisions in order; within a revision plain objects, then compressed ones
               viewOfRev(acc, r) ==
                   LET a1 == FoldLeft(LAMBDA a, i : MapPut(a, allobjs[i].num, [gen |-> allobjs[i].gen, val |-> fixed[i].val]),
